@@ -6,8 +6,8 @@ import os, re
 from .common import sh, BUILD, VERIF
 
 
-def playback_incrate(crate_dir, kani_subdir, harness_mod_path, test_src, tag):
-    gen = os.path.join(VERIF, "kani", kani_subdir, "playback_gen.rs")
+def playback_incrate(crate_dir, kani_subdir, harness_mod_path, test_src, tag, gen_file="playback_gen.rs"):
+    gen = os.path.join(VERIF, "kani", kani_subdir, gen_file)
     body = test_src.replace("kani::concrete_playback_run(concrete_vals, ", "kani::concrete_playback_run(concrete_vals, %s::" % harness_mod_path)
     placeholder = open(gen).read()
     out = ""
